@@ -63,6 +63,9 @@ theorem chunkLoop_slice_ok (sz cl : Nat) :
 theorem runBulk_slice_ok {sz c : Nat} {s b r : Bytes} (h : runBulk sliceInput sz c s = (.ok b, r)) :
     s = b ++ r ∧ ∀ t, runBulk sliceInput sz c (s ++ t) = (.ok b, r ++ t) := by
   unfold runBulk at h ⊢
+  by_cases hg : sz > maxPrealloc
+  · simp [hg] at h
+  simp only [hg, if_false] at h ⊢
   by_cases hov : c * sz > usizeMax
   · simp [hov] at h
   · simp only [hov, if_false] at h ⊢
